@@ -1990,6 +1990,8 @@ class Result:
         result = self.copy()
         if l or p: result = result._group_p(l,p)
         if n     : result = result._global_n(n)
+        #dropping evaluations that are shorter than n can leave incomplete pairing groups behind
+        if n and n != 'min' and (l or p): result = result._group_p(l,p)
         return result
 
     def _remove(self, ids: Sequence[Tuple[int,int,int]], n=0) -> Sequence[int]:
